@@ -3,16 +3,16 @@ CONSTANTS
   Confs <- RefConfs
   InitRegs <- RefRegs
   ScopeNames = {"a", "b"}
-  MaxScopeDepth = 2
-  MaxStack = 3
-  BindVals <- RefBindVals
-  MaxBindings = 6
-  Enabled = {"Bind", "EnterScope", "ExitScope", "Call", "GetBindings"}
+  MaxScopeDepth = 1
+  MaxStack = 2
+  BindVals <- RefBindValsQuick
+  MaxBindings = 1
+  Enabled = {"Bind", "EnterScope", "ExitScope", "GetBindings"}
   NameOrder <- NamesRefs
   HookUniverse = {}
-  BindApis = {"tuple", "text"}
+  BindApis = {"tuple"}
   FreshConfs = {}
-  BindFilter <- RefFilter
+  BindFilter <- RefFilterQuick
   ConstVals = {}
   QuerySpellings <- RefSpellings
   ConstNames = {}
@@ -20,5 +20,7 @@ CONSTANTS
   CallExtraKw = {}
   CallsWithReq = FALSE
   DevKwEval = FALSE
-CONSTRAINT ExportConstraint
+VIEW ViewNoOut
+INVARIANT C04_Refs
+PROPERTY GetBindingsAgrees
 CHECK_DEADLOCK FALSE
